@@ -101,13 +101,16 @@ pub async fn handle_notify_get_or_head(
     // Subscribe before looking at the version so that a notification sent
     // between the version check and the wait below is not lost.
     let mut notify = notify.subscribe();
+    #[cfg(feature = "verif-hooks")] crate::verif::point("http-notify:subscribed");
     let wait = match need_wait(&req, history) {
         Ok(wait) => wait,
         Err(resp) => return Ok(resp),
     };
+    #[cfg(feature = "verif-hooks")] crate::verif::point("http-notify:checked");
 
     if wait {
         notify.recv().await;
+        #[cfg(feature = "verif-hooks")] crate::verif::point("http-notify:woken");
     }
 
     if req.is_head() {
@@ -505,3 +508,24 @@ impl Iterator for SnapshotStream {
     }
 }
 
+
+
+//------------ Verification hooks --------------------------------------------
+
+/// The chunks a `/json-delta` delta response body consists of.
+#[cfg(feature = "verif-hooks")]
+pub fn verif_delta_chunks(
+    session: u64, from_serial: Serial, to_serial: Serial,
+    delta: Arc<PayloadDelta>, created: DateTime<Utc>,
+) -> Vec<Bytes> {
+    DeltaStream::new(session, from_serial, to_serial, delta, created).collect()
+}
+
+/// The chunks a `/json-delta` reset response body consists of.
+#[cfg(feature = "verif-hooks")]
+pub fn verif_snapshot_chunks(
+    session: u64, to_serial: Serial, snapshot: Arc<PayloadSnapshot>,
+    created: DateTime<Utc>,
+) -> Vec<Bytes> {
+    SnapshotStream::new(session, to_serial, snapshot, created).collect()
+}
